@@ -44,6 +44,35 @@ func ruleSyncGuards(c *Ctx) {
 				{ID: "persisted", Doc: "mptSynced is set only after a successful synchronous persist", Alts: [][]string{{"pkg/core/storage.(*MemCachedStore).PersistSync"}}}}},
 	})
 
+	// crash consistency of a restored leaf: after a restart the module takes a node record found in the database as
+	// "restored, with everything it implies" (defineSyncStage removes it from the pool of missing nodes). For a leaf
+	// that includes the contract storage item the leaf stands for. The store the billet writes to is flushed by the
+	// ledger's own periodic persist, which is not synchronised with AddMPTNodes, so the two Put calls of one restore can
+	// land in different batches: the implied record (the storage item) has to be written before the implying one
+	// (the node record stored by putIntoNode -> incrementRefAndStore).
+	if fd := c.P.Func("pkg/core/mpt", "Billet", "RestoreHashNode"); fd == nil {
+		c.Lost("restore-order.anchor", "Billet.RestoreHashNode not found")
+	} else {
+		f := c.P.NewFuncCFG(fd)
+		nodeStores := f.CallSites("pkg/core/mpt.(*Billet).putIntoNode")
+		var itemPuts []site
+		for _, st := range f.CallSites("pkg/core/storage.(*MemCachedStore).Put", "pkg/core/storage.(Store).Put") {
+			if len(st.call.Args) > 0 && f.Mentions(st.call.Args[0], st.blk)["pkg/core/mpt#TempStoragePrefix"] {
+				itemPuts = append(itemPuts, st)
+			}
+		}
+		switch {
+		case len(nodeStores) == 0 || len(itemPuts) == 0:
+			c.Lost("restore-order.sites", fmt.Sprintf("RestoreHashNode: %d node-record stores, %d storage-item writes found", len(nodeStores), len(itemPuts)))
+		default:
+			if ok, path := f.mustBefore(f.Entry(), nodeStores, itemPuts, symAssume("local<-type:pkg/core/mpt.LeafNode", true)); ok {
+				c.OK("restore-order.RestoreHashNode", c.P.Pos(fd.Decl.Pos()), "a leaf's contract storage item is written before its node record")
+			} else {
+				c.Fail("restore-order.RestoreHashNode", c.P.Pos(nodeStores[0].call.Pos()), "Billet.RestoreHashNode stores the node record of a leaf (putIntoNode) before the contract storage item the leaf stands for: a flush between the two writes followed by a crash leaves a leaf that the restarted module takes as restored while its storage item was never written - the state root matches, contract storage lacks a key", path...)
+			}
+		}
+	}
+
 	// a ring slot of the block queue is cleared only after looking at what it currently holds
 	if fd := c.P.Func("pkg/network/bqueue", "Queue", "Run"); fd == nil {
 		c.Lost("bqueue.Run.anchor", "bqueue.(*Queue).Run not found")
@@ -408,3 +437,4 @@ func ruleInactiveAfterJump(c *Ctx) {
 	}
 	c.Floor("places that set the stage to inactive", n, 3)
 }
+
